@@ -663,6 +663,9 @@ def rule_o2(ctx: Ctx) -> None:
     target = next((unparse(st.targets[0].elts[1]) for st in occ.body if isinstance(st, ast.Assign) and isinstance(st.targets[0], ast.Tuple) and isinstance(st.value, ast.Tuple)
                    and len(st.value.elts) == 2 and unparse(st.value.elts[1]) == f"{occ.params[1]}.get_perm()"), None)
     if target is None:
+        target = next((st.targets[0].id for st in occ.body if isinstance(st, ast.Assign) and len(st.targets) == 1 and isinstance(st.targets[0], ast.Name)
+                       and unparse(st.value) == f"{occ.params[1]}.get_perm()"), None)
+    if target is None:
         raise AnalysisError(f"{occ.where}: target permutation local not found")
     loops = [st for st in rec.body if isinstance(st, ast.While)]
     lp = loops[0]
